@@ -14,9 +14,18 @@ import (
 // records and evidence naming existing validators (CometBFT's contract) - an error or panic
 // there would halt the chain.
 func VH_C19_beginblock(h *vrt.H) {
-	n := 1
-	if h.Thorough() {
-		n = 2
+	// quick: one validator, every combination of the inputs below. thorough adds a second
+	// universe: two validators with the vote powers and the evidence kind fixed (the full
+	// product with two validators is about 10^7 paths and did not finish in an hour)
+	n, narrow := 1, false
+	if h.Thorough() && h.Choose("twoValidators", 0, 1) == 1 {
+		n, narrow = 2, true
+	}
+	pick := func(name string, lo, hi, fixed int) int {
+		if narrow {
+			return fixed
+		}
+		return h.Choose(name, lo, hi)
 	}
 	k, ctx := vhKeeper(h)
 	w := []uint64{0, 1}[h.Choose("weight", 0, 1)]
@@ -25,15 +34,15 @@ func VH_C19_beginblock(h *vrt.H) {
 	var votes []abci.VoteInfo
 	var total int64
 	for i := 0; i < n; i++ {
-		p := int64(h.Choose(h.Name("votePower", i), 1, 3))
+		p := int64(pick(h.Name("votePower", i), 1, 3, 1))
 		total += p
 		votes = append(votes, abci.VoteInfo{Validator: abci.Validator{Address: vhAddr(i), Power: p}, BlockIdFlag: cmtproto.BlockIDFlag(h.Choose(h.Name("flag", i), 1, 3))})
 	}
 	var ev vhEvidenceList
 	if h.Choose("evidence", 0, 1) == 1 {
-		ev = vhEvidenceList{{typ: comet.MisbehaviorType(h.Choose("evType", 0, 3)), addr: vhAddr(h.Choose("evTarget", 0, n-1)), height: 3, time: time.Unix(1, 0)}}
+		ev = vhEvidenceList{{typ: comet.MisbehaviorType(pick("evType", 0, 3, int(comet.DuplicateVote))), addr: vhAddr(h.Choose("evTarget", 0, n-1)), height: 3, time: time.Unix(1, 0)}}
 	}
-	ctx = ctx.WithBlockHeight(int64(h.Choose("height", 1, 3))).WithBlockTime(time.Unix(int64(h.U32("now")), 0).UTC()).WithVoteInfos(votes).WithCometInfo(vhBlockInfo{ev: ev})
+	ctx = ctx.WithBlockHeight(int64(pick("height", 1, 3, 2))).WithBlockTime(time.Unix(int64(h.U32("now")), 0).UTC()).WithVoteInfos(votes).WithCometInfo(vhBlockInfo{ev: ev})
 	var err error
 	panicked := h.Panics(func() { err = k.BeginBlocker(ctx) })
 	h.Assert(!panicked, "beginblocker-never-panics")
